@@ -252,6 +252,7 @@ def dump_options(ctx):
     generic.serializer_options(ctx, "C04-D4c serializer options", ("suit_generator.cmd_sign", "ncs.sign_script"), 4,
                                "the signed output is the input plus one block, byte for byte")
     generic.cli_converters(ctx, "C04-D4d CLI converters", "suit_generator.cmd_sign", 6)
+    generic.subcommand_dispatch(ctx, "C04-D4e sub-command dispatch", "suit_generator.cmd_sign", 2)
 
 
 def ecdsa_rules(ctx):
